@@ -299,6 +299,11 @@ def digest(*arrays) -> str:
             h.update(str(a.dtype).encode() + str(a.shape).encode())
             if a.dtype == object:
                 h.update(repr(a.tolist()).encode())
+            elif a.dtype == np.longdouble and np.dtype(np.longdouble).itemsize > 8:
+                # the in-memory form of an extended-precision number has padding bytes with arbitrary content: hash the value
+                hi = a.astype(np.float64)
+                lo = (a - hi.astype(np.longdouble)).astype(np.float64)
+                h.update(np.ascontiguousarray(hi).tobytes() + np.ascontiguousarray(lo).tobytes())
             else:
                 h.update(np.ascontiguousarray(a).tobytes())
         elif isinstance(a, (list, tuple)):
